@@ -275,11 +275,25 @@ def tab_dispatch(ctx):
     rows, rest = T.int_match_table(m, dom)
     callees = {}
     armsx = {}
+    followed = set()
+
+    def expand_helpers(body):
+        """the arm body plus the bodies of crate-local helpers of this module it calls (one level)"""
+        nodes = [body]
+        for c in T.calls(body):
+            cc = T.canon(T.callee_of(c))
+            if cc.startswith("decodation::eci::") and cc not in ("decodation::eci::decode_iso_8859_9", "decodation::eci::decode_iso_8859_11", "decodation::eci::convert_chunk_extended"):
+                for n2, b2 in f.thir.items():
+                    if T.canon(n2) == cc:
+                        nodes.append(b2["body"])
+                        followed.add(cc)
+        return nodes
     for vals, bind, guard, body, arm in rows:
-        cs = sorted({T.canon(T.callee_of(c)) for c in T.calls(body)})
+        nodes = expand_helpers(body)
+        cs = sorted({T.canon(T.callee_of(c)) for n in nodes for c in T.calls(n)})
         for v in vals:
             callees[v] = cs
-            armsx[v] = (body, arm)
+            armsx[v] = (body, arm, nodes)
     obs = []
 
     def has(v, suffix):
@@ -287,7 +301,7 @@ def tab_dispatch(ctx):
 
     def only_transformers(v, allowed):
         """no decoder other than the allowed ones is involved"""
-        dec = [c for c in callees.get(v, []) if c.startswith("decodation::") or c.startswith("data::")]
+        dec = [c for c in callees.get(v, []) if (c.startswith("decodation::") or c.startswith("data::")) and c not in followed]
         return all(any(d.endswith(a) for a in allowed) for d in dec)
     for v in (0, 3):
         obs.append(Ob(r, "eci:%d" % v, has(v, "data::latin1_to_utf8_mut") and only_transformers(v, ["data::latin1_to_utf8_mut"]),
@@ -296,12 +310,12 @@ def tab_dispatch(ctx):
     obs.append(Ob(r, "eci:13", has(13, "decode_iso_8859_11") and only_transformers(13, ["decode_iso_8859_11"]), "ECI 13 is decoded as ISO-8859-11", detail=callees.get(13)))
     # 26: from_utf8 of the chunk pushed unchanged
     for v, extra in ((26, []), (27, ["is_ascii"])):
-        body, arm = armsx[v]
-        e = [T.sx(c) for c in T.calls(body) if T.canon(T.callee_of(c)).endswith("String::push_str")]
+        body, arm, nodes = armsx[v]
+        e = [T.sx(c) for n in nodes for c in T.calls(n) if T.canon(T.callee_of(c)).endswith("String::push_str")]
         ok = len(e) >= 1 and only_transformers(v, [])
         for pe in e:
             fu = T.sx_calls(pe, "str::from_utf8")
-            ok = ok and len(fu) == 1 and fu[0][2][0][:2] == ("var", "bytes")
+            ok = ok and len(fu) == 1 and fu[0][2][0][0] == "var" and fu[0][2][0][1] in ("bytes", "chunk", "b", "raw")
         for x in extra:
             ok = ok and has(v, x)
         if v == 27:
@@ -490,15 +504,31 @@ def str_branch(ctx):
     b = f.thir[fn]
     obs = []
     ifs = [s for s in sts if s[0] == "if"]
+    ms = [s for s in sts if s[0] == "match"]
     ok = False
     det = None
+    some_branch = none_branch = None
+    okc = False
+    bound = None
     if len(ifs) == 1 and ifs[0][1][0] == "iflet":
         cond = ifs[0][1]
         src = cond[1]
         okc = src[0] == "call" and src[1] == "data::utf8_to_latin1" and src[2][0][:2] == ("var", "text") and cond[3] == "Some"
         bound = cond[2][0].split("#")[0] if cond[2] else None
-        then_calls = [x for s in T.stmt_walk(ifs[0][2]) for e in T.stmt_exprs(s) for x in T.sx_calls(e, "DataMatrixBuilder::encode_eci")]
-        else_calls = [x for s in T.stmt_walk(ifs[0][3]) for e in T.stmt_exprs(s) for x in T.sx_calls(e, "DataMatrixBuilder::encode_eci")]
+        some_branch, none_branch = ifs[0][2], ifs[0][3]
+    elif len(ms) == 1 and ms[0][1][0] == "call" and ms[0][1][1] == "data::utf8_to_latin1" and ms[0][1][2][0][:2] == ("var", "text") and len(ms[0][2]) == 2:
+        okc = True
+        for pat, body, guard in ms[0][2]:
+            d = T._pat_desc(pat)
+            if d == "Some":
+                some_branch = body
+                names = T.pat_names(pat)
+                bound = names[0].split("#")[0] if names else None
+            elif d in ("None", "Wild"):
+                none_branch = body
+    if some_branch is not None and none_branch is not None:
+        then_calls = [x for s in T.stmt_walk(some_branch) for e in T.stmt_exprs(s) for x in T.sx_calls(e, "DataMatrixBuilder::encode_eci")]
+        else_calls = [x for s in T.stmt_walk(none_branch) for e in T.stmt_exprs(s) for x in T.sx_calls(e, "DataMatrixBuilder::encode_eci")]
         det = {"then": [T.sx_show(x) for x in then_calls], "else": [T.sx_show(x) for x in else_calls]}
         okt = len(then_calls) == 1 and _is_none(then_calls[0][2][2]) and _mentions_var(then_calls[0][2][1], bound)
         oke = False
